@@ -8,4 +8,4 @@ for P in "$@"; do
   cat /verif/seeded/$ID/check-$P.log
 done
 git -C /repo checkout -- .
-/verif/.cache/bin/translate /repo /verif/coq/Gen >/dev/null 2>&1
+(cd /verif && python3 -c "import sys; sys.path.insert(0,'lib'); from common import prepare; prepare()" >/dev/null 2>&1)
